@@ -78,7 +78,7 @@ pub fn run(args: &Args) {
             for _ in 0..6 {
                 let mut copy = lines.clone();
                 m = mutate_once(&mut r, &mut copy);
-                if matches!(m, "sort_id" | "operand_id" | "negation" | "width" | "op_swap" | "const_value" | "swap_lines" | "dup_line" | "del_line") {
+                if matches!(m, "sort_id" | "array_sort" | "init_next_value" | "operand_id" | "negation" | "width" | "op_swap" | "const_value" | "swap_lines" | "dup_line" | "del_line") {
                     lines = copy;
                     break;
                 }
